@@ -48,6 +48,14 @@ Definition set_tm (d : dobj) (tm : N) : dobj :=
          (o_cache_depth d) (o_cache_type d) (o_group_depth d) (o_group_kind d) (o_group_subkind d)
          (o_pci_class d) (o_os_types d).
 
+Definition set_gdepth (d : dobj) (g : Z) : dobj :=
+  mkDobj (o_id d) (o_type d) (o_depth d) (o_os d) (o_gp d) (o_parent d) (o_first d) (o_last d)
+         (o_prev_sib d) (o_next_sib d) (o_prev_cousin d) (o_next_cousin d)
+         (o_arity d) (o_marity d) (o_iarity d) (o_xarity d) (o_rank d) (o_lidx d) (o_carray d)
+         (o_nch d) (o_mch d) (o_ich d) (o_xch d) (o_cs d) (o_ccs d) (o_nds d) (o_cnds d) (o_tm d) (o_lm d)
+         (o_cache_depth d) (o_cache_type d) g (o_group_kind d) (o_group_subkind d)
+         (o_pci_class d) (o_os_types d).
+
 Definition odiff (a : option bset) (b : bset) : option bset :=
   match a with Some s => Some (bs_diff s b) | None => None end.
 
@@ -257,6 +265,34 @@ Fixpoint retotal (o : obj) : obj :=
       Obj (set_tm d (tot + (if o_type d =? HWLOC_OBJ_NUMANODE then o_lm d else 0))) n' m' i x
   end.
 
+(* hwloc_set_group_depth (called at the end of hwloc_topology_restrict since fix f97426a):
+   the k-th level (top-down) whose first object is a Group gets attr->group.depth = k *)
+Fixpoint group_level_ids (ls : list (list obj)) (k : Z) : list (N * Z) :=
+  match ls with
+  | [] => []
+  | l :: tl =>
+      match l with
+      | o :: _ => if otype o =? HWLOC_OBJ_GROUP
+                  then map (fun q => (oid q, k)) l ++ group_level_ids tl (k + 1)%Z
+                  else group_level_ids tl k
+      | [] => group_level_ids tl k
+      end
+  end.
+Fixpoint assocN (k : N) (l : list (N * Z)) : option Z :=
+  match l with [] => None | (a, v) :: tl => if a =? k then Some v else assocN k tl end.
+(* only objects reachable through normal children are in levels *)
+Fixpoint regroup_tree (tbl : list (N * Z)) (o : obj) : obj :=
+  match o with
+  | Obj d n m i x =>
+      let n' := (fix go (l : list obj) : list obj := match l with [] => [] | c :: tl => regroup_tree tbl c :: go tl end) n in
+      Obj (match assocN (o_id d) tbl with Some g => set_gdepth d g | None => d end) n' m i x
+  end.
+Definition set_group_depths (root : obj) : option obj :=
+  match levels_of root with
+  | Some ls => Some (regroup_tree (group_level_ids ls 0%Z) root)
+  | None => None
+  end.
+
 (* ------------------------------------------------------------------ *)
 (* hwloc_topology_restrict                                             *)
 
@@ -315,7 +351,11 @@ Definition restrict_topo (filters dm : list N) (t : topo) (S : bset) (flags : N)
   match restrict_prune t S flags with
   | Done t1 =>
       match keep_structure filters dm (tp_root t1) with
-      | Some r => Done (mkTopo (retotal r) (tp_acpu t1) (tp_anode t1))
+      | Some r =>
+          match set_group_depths (retotal r) with
+          | Some r' => Done (mkTopo r' (tp_acpu t1) (tp_anode t1))
+          | None => Fault
+          end
       | None => Fault
       end
   | other => other
@@ -326,13 +366,13 @@ Definition restrict_topo (filters dm : list N) (t : topo) (S : bset) (flags : N)
 
 Definition gpN (o : dobj) : N := match o_gp o with Some g => g | None => 0 end.
 
-(* what is compared per object: gp, type, os, the four sets, total memory, the four
-   children lists as gp_index lists *)
-Definition oview := (N * N * N * (option bset * option bset * option bset * option bset) * N *
+(* what is compared per object: gp, type, os, the four sets, total memory (paired with
+   attr->group.depth), the four children lists as gp_index lists *)
+Definition oview := (N * N * N * (option bset * option bset * option bset * option bset) * (N * Z) *
                      (list N * list N * list N * list N))%type.
 Definition view_of (o : obj) : oview :=
   let d := odata o in
-  (gpN d, o_type d, o_os d, (o_cs d, o_ccs d, o_nds d, o_cnds d), o_tm d,
+  (gpN d, o_type d, o_os d, (o_cs d, o_ccs d, o_nds d, o_cnds d), (o_tm d, o_group_depth d),
    (map (fun c => gpN (odata c)) (onch o), map (fun c => gpN (odata c)) (omch o),
     map (fun c => gpN (odata c)) (oich o), map (fun c => gpN (odata c)) (oxch o))).
 Definition tree_view (o : obj) : list oview := map view_of (flatten o).
@@ -587,6 +627,19 @@ Definition dont_merge_check (before after : dump) (Sx : bset) (flags : N) (dm : 
               if memN (o_id o) dm && (o_type o =? HWLOC_OBJ_GROUP)
               then chk (present after o || rule_applies before after Sx flags o) "dont-merge-group-vanished" (gpN o)
               else []) (t_objs before).
+
+(* Group depths after a successful restrict (fix f97426a): the k-th normal level made of
+   Groups, top-down, holds Groups whose attr->group.depth is k *)
+Fixpoint group_depths_from (d : dump) (ls : list level) (k : Z) : list viol :=
+  match ls with
+  | [] => []
+  | l :: tl =>
+      if (l_type l =? Z.of_N HWLOC_OBJ_GROUP)%Z
+      then flat_map (fun o => chk (o_group_depth o =? k)%Z "group-depth-not-rank-of-its-group-level" (gpN o)) (derefs d (l_ids l))
+           ++ group_depths_from d tl (k + 1)%Z
+      else group_depths_from d tl k
+  end.
+Definition group_depths_check (after : dump) : list viol := group_depths_from after (normal_levels after) 0%Z.
 
 (* ------------------------------------------------------------------ *)
 (* return value: when EINVAL must / may be returned                    *)
